@@ -293,8 +293,10 @@ func planSample(p *Plan) interface{} {
 
 func engineFor(prop string, t *testing.T) Engine {
 	switch prop {
-	case "C01", "C02", "C16":
+	case "C01", "C02":
 		return seqEngine{}
+	case "C16":
+		return multiEngine{engines: map[string]Engine{"seq": seqEngine{}, "xfs": xfsEngine{"C16"}}, order: []string{"seq", "xfs"}, weights: []int{5, 1}}
 	case "C03", "C04", "C09":
 		return crashEngine{}
 	case "C08", "C19":
